@@ -39,6 +39,9 @@ def configs(tier, seed):
                             continue  # slicing away the dimension a flow is split by is a contradictory setting (flodym raises)
                         key = f"sankey/" + "+".join(f"{a}>{b}:{d}" for (a, b), d in zip(fs, fdims)) + f"/slice={''.join(f'{k}{v}' for k, v in sl.items()) or '-'}/excl={','.join(excl) or '-'}/exf={int(exf)}/split={split}"
                         out.append(dict(h="sankey", op="sankey", key=key, procs=procs, flows=[list(p) for p in fs], fdims=fdims, stocks=[], slice=sl, excl=excl, exf=exf, split=split))
+                        if (i + si) % 3 == 1:
+                            # node colours given per process, in another order than the system lists its processes
+                            out.append(dict(h="sankey", op="sankey_nodecol", key=key + "/node_colors=reversed_order", procs=procs, flows=[list(p) for p in fs], fdims=fdims, stocks=[], slice=sl, excl=excl, exf=exf, split=split, node_colors="reversed"))
                         if (excl or exf) and (i + si) % 3 == 0:
                             for how in ("before_plot", "after_plot"):
                                 out.append(dict(h="sankey", op="sankey_reconf", key=key + f"/settings_assigned={how}", procs=procs, flows=[list(p) for p in fs], fdims=fdims, stocks=[], slice=sl, excl=excl, exf=exf, split=split, reconfigured=how))
@@ -98,6 +101,9 @@ def _sankey(cfg, w):
             split_dim = (n0, d0[-1])
             colors[n0] = (NAMES[d0[-1]] if len(d0) % 2 else d0[-1], ["red", "green", "blue"])
     sl = cfg["slice"]
+    extra_kw = {}
+    if cfg.get("node_colors") == "reversed":
+        extra_kw["node_color_dict"] = {"default": "gray", **{p_: c_ for p_, c_ in zip(reversed(cfg["procs"]), ["red", "green", "blue", "orange"])}}
     try:
         if cfg.get("reconfigured"):
             # one plotter object used for a second view of the system: built (and plotted) with other settings first
@@ -109,7 +115,7 @@ def _sankey(cfg, w):
             pl.slice_dict = dict(sl)
             fig = pl.plot()
         else:
-            fig = PlotlySankeyPlotter(mfa=mfa, slice_dict=dict(sl), exclude_processes=list(cfg["excl"]), exclude_flows=exflows, flow_color_dict=colors).plot()
+            fig = PlotlySankeyPlotter(mfa=mfa, slice_dict=dict(sl), exclude_processes=list(cfg["excl"]), exclude_flows=exflows, flow_color_dict=colors, **extra_kw).plot()
     except Exception as e:
         w.ob("plot_does_not_raise", False, info=f"{type(e).__name__}: {str(e)[:200]}")
         return
